@@ -910,7 +910,13 @@ class CSSSerializer:
                     out.append(val.cssText, type_)
                     out.append(self.prefs.lineSeparator)
 
-            return out.value().strip()
+            text = out.value().lstrip()
+            stripped = text.rstrip()
+            backslashes = len(stripped) - len(stripped.rstrip('\\'))
+            if backslashes % 2 and len(stripped) < len(text):
+                # the value of the last variable ends with an escaped blank
+                stripped += text[len(stripped)]
+            return stripped
 
         else:
             return ''
